@@ -6,5 +6,11 @@ export GOFLAGS=-mod=mod GOPROXY=off GOSUMDB=off GOTOOLCHAIN=local
 mkdir -p bin evidence replays
 go build -tags verif -o bin/vcheck.setup ./cmd/vcheck
 rm -f bin/vcheck.setup
+# warm the caches of the scheduler-overlay build and of the race build
+mkdir -p .work/setup
+go run ./tools/instrument -verif "$(pwd)" -out "$(pwd)/.work/setup" > /dev/null
+go build -tags "verif vsched" -overlay .work/setup/overlay.json -o bin/vsched.setup ./cmd/vsched
+CGO_ENABLED=1 go build -race -o bin/vrace.setup ./cmd/vrace
+rm -rf bin/vsched.setup bin/vrace.setup .work/setup
 if [ -x tools/setup_extra.sh ]; then ./tools/setup_extra.sh; fi
 echo "setup ok"
